@@ -186,6 +186,7 @@ pub fn main(args: &[String]) {
                     }
                     (rec["toks"].as_array().unwrap().iter().map(|t| t.as_str().unwrap()).collect::<Vec<_>>().join(" "), vec![], false)
                 }
+                "TEXT" => (rec["text"].as_str().unwrap().to_string(), vec![], false),
                 _ => (c_pipe::unparse(&rec["t"], i % 4), vec![], true),
             };
             json!({"text": text, "ctx": ctx, "check": check, "ev": every > 0 && i % every == 0}).to_string()
